@@ -1502,6 +1502,7 @@ func ruleNoSkip(w *World, r *Report, fn string) {
 		r.add("NOSKIP", fn, "?", Unresolved, "function not found")
 		return
 	}
+	nloops := naturalLoops(f)
 	isEffect := func(in ssa.Instruction) bool {
 		switch x := in.(type) {
 		case *ssa.MapUpdate:
@@ -1513,6 +1514,23 @@ func ruleNoSkip(w *World, r *Report, fn string) {
 			if g := calleeOf(x); g != nil && isSetter(w, g) {
 				return true
 			}
+			// a module helper that inserts into a map it is handed (register(set, key))
+			if g := calleeOf(x); g != nil && w.InModule(g) && g.Blocks != nil {
+				for i, a := range x.Call.Args {
+					if !isMap(a.Type()) || i >= len(g.Params) {
+						continue
+					}
+					ins := false
+					instrs(g, func(in2 ssa.Instruction) {
+						if mu, ok := in2.(*ssa.MapUpdate); ok && resolve(mu.Map) == ssa.Value(g.Params[i]) {
+							ins = true
+						}
+					})
+					if ins {
+						return true
+					}
+				}
+			}
 		}
 		return false
 	}
@@ -1521,10 +1539,26 @@ func ruleNoSkip(w *World, r *Report, fn string) {
 		n := 0
 		for b := range blocks {
 			for _, in := range b.Instrs {
-				if isEffect(in) {
-					stop[b] = true
-					n++
+				if !isEffect(in) {
+					continue
 				}
+				// an append to a scratch list created inside this very loop (and so thrown
+				// away with the iteration) records nothing that outlives the iteration
+				if c, ok := in.(*ssa.Call); ok && builtinName(c) == "append" {
+					scratch := true
+					ai := appendChain(c)
+					for _, base := range ai.Bases {
+						bi, isIn := base.(ssa.Instruction)
+						if !isIn || !blocks[bi.Block()] {
+							scratch = false
+						}
+					}
+					if scratch && len(ai.Bases) > 0 {
+						continue
+					}
+				}
+				stop[b] = true
+				n++
 			}
 		}
 		key := fmt.Sprintf("%s / %s loop#%d", fn, kind, k)
@@ -1589,13 +1623,20 @@ func ruleNoSkip(w *World, r *Report, fn string) {
 				lk = y
 			}
 			if lk != nil {
+				// only when the duplicate is the element this very loop level handles:
+				// test and insertion sit in the same innermost loop
 				if mm, ok := resolve(lk.X).(*ssa.MakeMap); ok {
 					for _, ref := range *mm.Referrers() {
-						if mu, ok := ref.(*ssa.MapUpdate); ok && equivValue(mu.Key, lk.Index) {
+						if mu, ok := ref.(*ssa.MapUpdate); ok && equivValue(mu.Key, lk.Index) && innermostLoop(nloops, mu.Block()) == innermostLoop(nloops, lk.Block()) {
 							return neg, true
 						}
 					}
 				}
+			}
+			// if register(set, element) { record }: a helper with the shape "false on hit;
+			// insert and true on miss"
+			if c, ok := cv.(*ssa.Call); ok && calleeOf(c) != nil && w.InModule(calleeOf(c)) && missThenInsertHelper(calleeOf(c)) {
+				return !neg, true
 			}
 			return false, false
 		}
@@ -2046,6 +2087,7 @@ func ifHitSucc(blk *ssa.BasicBlock, lk *ssa.Lookup) *ssa.BasicBlock {
 // innermost loop around it (break, labelled continue of an outer loop)
 // instead of going on with that loop's next element.
 func seenLeavesLoop(w *World, f *ssa.Function) string {
+	loops := naturalLoops(f)
 	for _, blk := range f.Blocks {
 		_, _, ifi := ifSuccs(blk)
 		if ifi == nil {
@@ -2083,22 +2125,11 @@ func seenLeavesLoop(w *World, f *ssa.Function) string {
 		if hit == nil {
 			continue
 		}
-		var inner map[*ssa.BasicBlock]bool
-		var innerHdr *ssa.BasicBlock
-		pick := func(bl map[*ssa.BasicBlock]bool, hdr *ssa.BasicBlock) {
-			if bl[blk] && (inner == nil || len(bl) < len(inner)) {
-				inner, innerHdr = bl, hdr
-			}
-		}
-		for _, sr := range findSliceRanges(f) {
-			pick(sr.blocks(), sr.Header)
-		}
-		for _, mr := range findMapRanges(f) {
-			pick(mr.blocks(), mr.Header)
-		}
-		if inner == nil {
+		il := innermostLoop(loops, blk)
+		if il == nil {
 			continue
 		}
+		inner, innerHdr := il.Blocks, il.Header
 		for b := range reachableFrom(hit, map[*ssa.BasicBlock]bool{innerHdr: true}) {
 			if !inner[b] && b != innerHdr {
 				if _, isRet := b.Instrs[len(b.Instrs)-1].(*ssa.Return); isRet && len(b.Preds) > 0 {
